@@ -15,17 +15,20 @@
 // reserved names, explicit entity references not shadowed by a common type, identifiers as names); messages of
 // resolution errors are not compared; enum value order and parent/principal/resource order are not compared.
 //
-// Sensitivity (scratch copies, quick tier, seed 1): see the block at the end of this comment, filled in by the builder.
+// Sensitivity (scratch copies of /repo and the harness, `go test ./c17/` = quick tier, one shard, seed 1):
 //
-//	M1 marshal.go quoteCedar: `"` no longer escaped            -> caught (text/parse, text/resolved)
-//	M2 json.go: `required` inverted on decode                  -> caught (json/resolved, own-json/resolved)
-//	M3 json.go: action parent "type" ignored on decode         -> caught (json/resolved)
-//	M4 (negative control) marshal.go: principal list sorted    -> not reported, as intended
+//	M1 marshal.go quoteCedar: `"` no longer escaped         -> caught: text/parse, cross/json-text (random legs + name table)
+//	M2 json.go unmarshalRecordType: `required` inverted     -> caught: json/resolved, json/stable, own-json/resolved, cross/*
+//	M3 json.go: action parent "type" ignored on decode      -> caught: json/resolved, json/stable, own-json/resolved, cross/*
+//	M4 (negative control) marshal.go: principal list sorted -> not reported, as intended (lists are compared as multisets)
+//	A replay file written from M3's violation fails under the mutant and passes on the unmodified tree.
 package c17
 
 import (
 	"encoding/json"
+	"flag"
 	"fmt"
+	"strconv"
 	"strings"
 	"testing"
 
@@ -277,7 +280,16 @@ func genCase(rt *rapid.T) *Case {
 	return &Case{Schema: s, Style: rapid.Uint64Range(1, 1<<62).Draw(rt, "style")}
 }
 
+// legSeed gives every leg its own rapid stream (ev.Main pins one seed per shard; without this all legs would
+// see the same schemas). Deterministic in (VERIF_SEED, shard, leg).
+func legSeed(leg int) {
+	_ = flag.Set("rapid.seed", strconv.Itoa(1+1000*ev.Seed+ev.Shard+100000*leg))
+}
+
+var legNo = map[string]int{"text": 1, "json": 2, "cross": 3, "own-text": 4, "own-json": 5}
+
 func randomLeg(t *testing.T, name string, l legs, quick, thorough int) {
+	legSeed(legNo[name])
 	ev.SetChecks(ev.Scale(quick, thorough))
 	rapid.Check(t, func(rt *rapid.T) {
 		c := genCase(rt)
@@ -356,7 +368,7 @@ func TestShapeTable(t *testing.T) {
 		"builtin-in-namespace":  {NS: []sch.NS{{Name: "NS", Entities: []sch.Entity{{Name: "Long"}, ent("B", sch.A("l", sch.Lng()), sch.A("r", sch.Ref("Long")), sch.A("s", sch.SetOf(sch.Lng())))}}}},
 		"all-types": {NS: []sch.NS{{Name: "NS", Commons: []sch.Common{{Name: "X", T: sch.Rec(sch.A("a", sch.SetOf(sch.SetOf(sch.Ref("U")))), sch.AOpt("b", sch.Rec(sch.AOpt("c", sch.Ext("datetime")))))}},
 			Entities: []sch.Entity{{Name: "U", Parents: []string{"U", "NS::G"}, HasShape: true, Shape: []sch.Attr{sch.A("x", refX), sch.AOpt("ip", sch.Ext("ipaddr")), sch.A("d", sch.Ext("decimal")), sch.A("du", sch.Ext("duration")), sch.A("bo", sch.Boo()), sch.A("bo2", sch.Ref("Boolean")), sch.A("bo3", sch.Ref("Bool"))}, Tags: &sch.Type{K: sch.TSet, Elem: &sch.Type{K: sch.TString}}}, {Name: "G"}},
-			Actions: []sch.Action{act("view", "U", "G", &refX), act("edit", "NS::U", "NS::G", &rec0), {Name: "grp"}, {Name: "sub", Parents: []sch.PRef{{ID: "grp"}, {Type: "NS::Action", ID: "view"}}}}}}},
+			Actions:  []sch.Action{act("view", "U", "G", &refX), act("edit", "NS::U", "NS::G", &rec0), {Name: "grp"}, {Name: "sub", Parents: []sch.PRef{{ID: "grp"}, {Type: "NS::Action", ID: "view"}}}}}}},
 		"cross-namespace-action-parent": {NS: []sch.NS{{Actions: []sch.Action{{Name: "root"}}}, {Name: "NS", Actions: []sch.Action{{Name: "a", Parents: []sch.PRef{{Type: "Action", ID: "root"}}}, {Name: "b", Parents: []sch.PRef{{ID: "a"}}}}}}},
 		"applies-multi":                 {NS: []sch.NS{{Entities: []sch.Entity{{Name: "A"}, {Name: "B"}}, Actions: []sch.Action{{Name: "a", Applies: &sch.Applies{Principals: []string{"B", "A"}, Resources: []string{"A", "B", "A"}}}}}}},
 		"attr-annotations":              {NS: []sch.NS{{Entities: []sch.Entity{ent("A", sch.Attr{Name: "x", T: sch.Lng(), Ann: []sch.Ann{{K: "doc", V: "the \"x\""}, {K: "in", Bare: true}}}, sch.Attr{Name: "if", T: sch.Rec(sch.Attr{Name: "", T: sch.Str(), Opt: true, Ann: []sch.Ann{{K: "a", V: "\n"}}})})}}}},
